@@ -32,6 +32,7 @@ BUILTIN_POOL = [dict(name="x", cls="Sub1"), dict(name="y", cls="Other")]
 BUILTIN_SETS = [[], [BUILTIN_POOL[0]], [BUILTIN_POOL[1]], BUILTIN_POOL]
 USER_CLASSES = ["Sub1", "Other"]
 NAMETYPES = ["ID", "INT", "STRING"]
+STYLES = ["sep", "rep"]      # how the grammar writes a list of references (nav.grammar_of)
 
 _UNKNOWN = re.compile(r'^Unknown object "(.*)" of class "(.*)"$')
 _NOTUNIQUE = re.compile(r"^name (.*) is not unique\.$")
@@ -53,15 +54,46 @@ class Real:
         self.mm = mm
         self.cache = {}
         self.failures = {}
+        self.past_done = set()
 
-    def metamodel(self, variant, B, nametype):
+    def _past(self, nametype, style):
+        """Before the meta-model under test is built, the process has used other languages with the same rule
+        names but another inheritance between them (an earlier version of the grammar): every named class is
+        referenced once through every reference attribute, successfully or not."""
+        from textx import metamodel_from_str
+        from textx.exceptions import TextXSemanticError
+        for shift in (1, 2):
+            old = nav.decoy_hierarchy(self.mm, shift)
+            old_mm = metamodel_from_str(nav.grammar_of(old, nametype, style))
+            root_attr = next(a for a in nav.class_of(old, old["root"])["attrs"] if a["cont"] and a["many"])
+            for c in old["classes"]:
+                if not c["named"]:
+                    continue
+                for h in old["classes"]:
+                    for a in h["attrs"]:
+                        if a["cont"] or h["name"] == old["root"]:
+                            continue
+                        g = nav.empty_graph()
+                        r = nav.add_object(old, g, old["root"], "")
+                        nav.add_object(old, g, c["name"], "y", r, root_attr["name"])
+                        u = nav.add_object(old, g, h["name"], "", r, root_attr["name"])
+                        next(x for x in g["refs"][u - 1] if x["a"] == a["name"])["names"].append("y")
+                        try:
+                            old_mm.model_from_str(nav.render(old, g, nametype))
+                        except TextXSemanticError:
+                            pass
+
+    def metamodel(self, variant, B, nametype, style="sep"):
         """(meta-model, {abstract builtin name: object}).  The builtins dict is keyed by the value textX
         gives a reference text of that name (0 for INT names, "" for the empty STRING name)."""
         from textx import metamodel_from_str
-        key = (variant, common.canon(B), nametype)
+        key = (variant, common.canon(B), nametype, style)
         if key in self.cache and self.failures.get(key, 0) < 400:
             return self.cache[key]
-        grammar = nav.grammar_of(self.mm, nametype)
+        if (nametype, style) not in self.past_done:
+            self.past_done.add((nametype, style))
+            self._past(nametype, style)
+        grammar = nav.grammar_of(self.mm, nametype, style)
         val = {b["name"]: nav.name_value(nametype, b["name"]) for b in B}
         if variant == "user":
             # builtins are instances of user classes registered for their rules
@@ -78,15 +110,15 @@ class Real:
                 o.name = val[b["name"]]
                 objs[b["name"]] = o
             m = metamodel_from_str(grammar, builtins={val[n]: o for n, o in objs.items()})
-        nav.check_metamodel(self.mm, m)
+        nav.check_metamodel(self.mm, m, ref_types=False)
         self.cache[key] = (m, objs)
         self.failures[key] = 0
         return self.cache[key]
 
-    def observe(self, g, B, variant, nametype="ID"):
+    def observe(self, g, B, variant, nametype="ID", style="sep"):
         from textx.const import UNKNOWN_OBJ_ERROR
         from textx.exceptions import TextXSemanticError, TextXSyntaxError
-        m, objs = self.metamodel(variant, B, nametype)
+        m, objs = self.metamodel(variant, B, nametype, style)
         text = nav.render(self.mm, g, nametype)
 
         def shown(txt):
@@ -99,7 +131,7 @@ class Real:
         except TextXSyntaxError as e:
             raise tlc.MachineryError(f"rendered model is not a sentence of the carrier grammar: {e}\n{text}")
         except TextXSemanticError as e:
-            key = (variant, common.canon(B), nametype)
+            key = (variant, common.canon(B), nametype, style)
             self.failures[key] = self.failures.get(key, 0) + 1
             msg = e.message
             u, nu = _UNKNOWN.match(msg), _NOTUNIQUE.match(msg)
@@ -180,8 +212,9 @@ def _conform(rep, reals, items, devs, label):
             ans = answers[keyof[common.digest([g, B])]]
             if not ans.get("wf"):
                 raise tlc.MachineryError(f"harness produced a graph Nav.tla does not accept as well-formed: {g}")
-            obs, text = reals[mm_name].observe(g, B, variant, nametype)
-            small = dict(variant=variant, names=nametype, builtins=[b["name"] for b in B], text=text)
+            nt, style = nametype.split("/")
+            obs, text = reals[mm_name].observe(g, B, variant, nt, style)
+            small = dict(variant=variant, names=nt, reflists=style, builtins=[b["name"] for b in B], text=text)
             nontrivial = _n_refs(g) >= 1 and any(g["name"])
             if _verdict(obs, ans):
                 rep.passed(small, nontrivial)
@@ -201,7 +234,8 @@ def _conform(rep, reals, items, devs, label):
                 rep.known_finding(hit, dict(variant=variant, text=text))
             else:
                 rep.violation(dict(mm=mm, case=dict(g=g, B=B, variant=variant.split("/")[0],
-                                                    nametype=variant.split("/")[1], text=text), observed=obs,
+                                                    nametype=variant.split("/")[1], style=variant.split("/")[2],
+                                                    text=text), observed=obs,
                                    expected=dict(ok=ans["ok"], errs=ans["errs"], res=ans["res"])), _why(obs, ans))
 
 
@@ -243,6 +277,11 @@ def run(rep):
         "every reference uses the default provider (no scope providers registered, no RREL); names are written as ID, "
         "as INT (`name=INT`, `[T|INT]`; the name x is 0) or as STRING (x is the empty string): the same abstract "
         "model in three carrier variants; builtins are keyed by the converted value",
+        "a list of references is written `a+=[T][',']` or `a=[T] (',' a=[T])*` in the grammar (same attribute "
+        "assigned twice with the same target); the target class of a reference attribute is judged through the "
+        "references, not read off the meta-model",
+        "before a meta-model under test is built, languages with the same rule names and a rotated inheritance "
+        "(Base = Sub2 | Other, ...) have been used in the same process",
         "rule hierarchy of the carrier: Base = Sub1 | Sub2; Any = Base | Alt; Alt = Any | Sub2 | Other (diamond and cycle)",
         "a load with several failing references may report any one of them (the order of resolution is not part of the property)",
         "an Unknown-object error is identified by its message `Unknown object \"<name>\" of class \"<rule>\"`, "
@@ -287,7 +326,7 @@ def run(rep):
                 variants = ("user", "donor") if (not quick and ui == 0) else (("user", "donor")[(i + bi) % 2],)
                 for vi, v in enumerate(variants):
                     # how names are written: ID, INT (x is 0) or STRING (x is the empty string)
-                    items.append((u[0], mm, g2, B, v, NAMETYPES[(i // 2 + bi + vi) % 3]))
+                    items.append((u[0], mm, g2, B, v, NAMETYPES[(i // 2 + bi + vi) % 3] + "/" + STYLES[(i // 3 + bi) % 2]))
     _conform(rep, reals, items, devs, "enumerated")
     rep.exhaustive = not quick
     rep.bounds["enumerated"] = dict(models=total, cases=len(items), builtins_sets=4,
@@ -299,7 +338,8 @@ def run(rep):
     items = []
     for i in range(count):
         g = _random_model(rng, mm7)
-        items.append(("MM7", mm7, g, rng.choice(BUILTIN_SETS), rng.choice(("user", "donor")), rng.choice(NAMETYPES)))
+        items.append(("MM7", mm7, g, rng.choice(BUILTIN_SETS), rng.choice(("user", "donor")),
+                      rng.choice(NAMETYPES) + "/" + rng.choice(STYLES)))
     _conform(rep, reals, items, devs, "random")
     rep.bounds["random"] = dict(models=count, objects="6..30", names="2..8")
 
@@ -311,7 +351,7 @@ def replay(path):
     mm, case = c["mm"], c["case"]
     print(case["text"], "builtins:", case["B"], "variant:", case["variant"], "names:", case.get("nametype", "ID"))
     answers, _ = nav.ask(mm, [dict(id="c0", kind="plain", g=case["g"], B=case["B"])])
-    obs, _ = Real(mm).observe(case["g"], case["B"], case["variant"], case.get("nametype", "ID"))
+    obs, _ = Real(mm).observe(case["g"], case["B"], case["variant"], case.get("nametype", "ID"), case.get("style", "sep"))
     print("observed:", obs)
     print("Nav.tla :", {k: answers["c0"][k] for k in ("ok", "errs", "res")})
     if _verdict(obs, answers["c0"]):
